@@ -1277,7 +1277,7 @@ Proof.
     apply run_end; reflexivity.
 Qed.
 
-Ltac side := first [reflexivity | discriminate | (cbn; lia) | (unfold zlen in *; cbn in *; lia)].
+Ltac side := first [reflexivity | discriminate | (cbn; lia) | (unfold zlen in *; cbn in *; lia) | (unfold zlen in *; cbn -[Z.mul Z.add Z.sub] in *; lia)].
 
 (* ---- 0 begin 1+ dup 5 = until *)
 Definition p_until := mkProg 64 [[0; 0; 67; 8]; [46; 32; 0; 5; 51]] [] [] [] [] 64 16.
@@ -1371,4 +1371,139 @@ Proof.
     + intros v s' Hs. cbn in Hs. inv Hs. cbn [d_stack with_stack]. rewrite zlen_cons.
       change (wrap 64 3) with 3. rewrite wrap64_id by lia. lia.
   - apply run_end; side.
+Qed.
+
+(* ---- if 10 else 20 then  /  if 10 then : for every flag v and every stack below (with room for one cell) *)
+Definition p_ifelse := mkProg 64 [[4; 67; 68]; [0; 10]; [0; 20]] [] [] [] [] 64 16.
+Definition p_ifthen := mkProg 64 [[3; 67]; [0; 10]] [] [] [] [] 64 16.
+
+Example ex_if_else_then : forall v s, zlen s < 64 ->
+  compile 64 64 16 (bytes "if 10 else 20 then"%string) = COk p_ifelse /\
+  ends p_ifelse (mkEnv []) 0 (St [0] true 0 (d_of (v :: s)) [(0, 0)] [])
+       (Ok (finished ((if v =? 0 then 20 else 10) :: s))).
+Proof.
+  intros v s Hs. split; [vm_compute; reflexivity|]. unfold finished.
+  eapply goes_ends.
+  - apply (if_else_then_spec_proof p_ifelse (mkEnv []) 0 [0] true 0 (d_of (v :: s))
+             (d_of ((if v =? 0 then 20 else 10) :: s)) v s 0 0 [] [] 1 2); try side.
+    exists 2. destruct (v =? 0); (split; [reflexivity|]).
+    + apply literal_spec with (num := 20); side.
+    + apply literal_spec with (num := 10); side.
+  - apply run_end; side.
+Qed.
+
+Example ex_if_then : forall v s, zlen s < 64 ->
+  compile 64 64 16 (bytes "if 10 then"%string) = COk p_ifthen /\
+  ends p_ifthen (mkEnv []) 0 (St [0] true 0 (d_of (v :: s)) [(0, 0)] [])
+       (Ok (finished (if v =? 0 then s else 10 :: s))).
+Proof.
+  intros v s Hs. split; [vm_compute; reflexivity|]. unfold finished.
+  eapply goes_ends.
+  - apply (if_then_spec_proof p_ifthen (mkEnv []) 0 [0] true 0 (d_of (v :: s))
+             (d_of (if v =? 0 then s else 10 :: s)) v s 0 0 [] [] 1); try side.
+    + intros Hv. split; [side|]. exists 2. split; [reflexivity|].
+      destruct (v =? 0) eqn:E; [lia|]. apply literal_spec with (num := 10); side.
+    + intros ->. reflexivity.
+  - apply run_end; side.
+Qed.
+
+(* empty stack: stack underflow; at the recursion limit: recursion depth exceeded *)
+Example ex_if_errors :
+  ends p_ifthen (mkEnv []) 0 (St [0] true 0 (d_of []) [(0, 0)] []) (Ok (St [0] true E_underflow (d_of []) [(0, 1)] [])) /\
+  api_run 100 true p_ifthen (mkEnv []) (init_machine p_ifthen) = Ok (St [0] true E_underflow (d_of []) [(0, 1)] []) /\
+  let p1 := mkProg 64 [[0; 1; 3; 67]; [0; 10]] [] [] [] [] 64 1 in
+  compile 64 64 1 (bytes "1 if 10 then"%string) = COk p1 /\
+  ends p1 (mkEnv []) 0 (St [0] true 0 (d_of [1]) [(0, 2)] []) (Ok (St [0] true E_recursion (d_of []) [(0, 4)] [])) /\
+  api_run 100 true p1 (mkEnv []) (init_machine p1) = Ok (St [0] true E_recursion (d_of []) [(0, 4)] []).
+Proof.
+  split; [apply if_underflow_proof with (c := CODE_IF); try side; left; reflexivity|].
+  split; [vm_compute; reflexivity|]. cbv zeta.
+  split; [vm_compute; reflexivity|].
+  split; [|vm_compute; reflexivity].
+  apply (if_recursion_limit_proof _ (mkEnv []) 0 [0] true 0 (d_of [1]) 1 [] 0 2 [] [] 1 2); side.
+Qed.
+
+(* ---- : f 0 begin 1+ dup 5 = if exit then again ; f 100   — begin..again is left only through exit *)
+Definition p_again :=
+  mkProg 64 [[67; 0; 100]; [0; 0; 68; 7]; [46; 32; 0; 5; 51; 3; 69]; [10; 2]] [([102], 67)] [] [] [] 64 16.
+
+Definition B_again (d : data) : data :=
+  match d_stack d with a :: s => with_stack d (wrap 64 (a + 1) :: s) | [] => d end.
+
+Example ex_begin_again_exit :
+  compile 64 64 16 (bytes ": f 0 begin 1+ dup 5 = if exit then again ; f 100"%string) = COk p_again /\
+  ends p_again (mkEnv []) 0 begun (Ok (finished [100; 5])) /\
+  api_run 100 true p_again (mkEnv []) (init_machine p_again) = Ok (St [] true 0 (d_of [100; 5]) [] []).
+Proof.
+  split; [vm_compute; reflexivity|]. split; [|vm_compute; reflexivity].
+  unfold begun, finished.
+  (* the call of f *)
+  eapply goes_ends; [apply call_enter_proof with (sg := 1) (len := 4); side|].
+  eapply goes_ends; [apply literal_spec with (num := 0); side|].
+  (* four complete passes through the body *)
+  destruct (begin_again_n p_again (mkEnv []) 0 [0] true 0 1 2 [(0, 1)] [] 2 ltac:(reflexivity) ltac:(reflexivity)
+              ltac:(reflexivity) ltac:(side) ltac:(side) B_again (fun j d => d = d_of [Z.of_nat j]) 4%nat) with (d := d_of [0])
+    as [Hg _].
+  { intros j di Hj ->. split; [|destruct j as [|[|[|[|j]]]]; [reflexivity..|lia]].
+    exists 7. split; [reflexivity|].
+    eapply goes_trans; [apply unop_spec with (b := CODE_ADD1) (f := fun a => wrap 64 (a + 1)) (a := Z.of_nat j) (s := []); side|].
+    eapply goes_trans; [eapply dup_spec; side|].
+    eapply goes_trans; [apply literal_spec with (num := 5); side|].
+    eapply goes_trans; [apply binop_spec with (b := CODE_EQ) (f := fun a b => bool_cell (a =? b)); side|].
+    eapply (if_then_spec_proof p_again (mkEnv []) 0 [0] true 0 _ _ 0 [wrap 64 (Z.of_nat j + 1)] 2 5 _ [] 3); try side.
+    destruct j as [|[|[|[|j]]]]; [reflexivity..|lia]. }
+  { reflexivity. }
+  eapply goes_ends; [exact Hg|].
+  (* the fifth pass ends in `exit` (exitdepth 2): the frames of `then`-segment, loop body and f are left *)
+  eapply goes_ends; [apply call_enter_proof with (sg := 2) (len := 7); side|].
+  eapply goes_ends; [apply unop_spec with (b := CODE_ADD1) (f := fun a => wrap 64 (a + 1)) (a := 4) (s := []); side|].
+  eapply goes_ends; [eapply dup_spec; side|].
+  eapply goes_ends; [apply literal_spec with (num := 5); side|].
+  eapply goes_ends; [apply binop_spec with (b := CODE_EQ) (f := fun a b => bool_cell (a =? b)); side|].
+  eapply goes_ends; [apply if_test with (v := -1) (s := [5]); side|].
+  eapply goes_ends; [apply call_enter_proof with (sg := 3) (len := 2); side|].
+  eapply goes_ends; [apply exit_spec_proof with (k := 2) (dos' := []); side|].
+  eapply goes_ends; [apply literal_spec with (num := 100); side|].
+  apply run_end; side.
+Qed.
+
+(* ---- 2 0 do 3 0 do i j + loop loop : nested loops, i = inner counter, j = outer counter *)
+Definition p_nested := mkProg 64 [[0; 2; 0; 0; 5; 67]; [0; 3; 0; 0; 5; 68]; [29; 30; 39]] [] [] [] [] 64 16.
+
+Definition B_in (j i : Z) (d : data) : data := with_stack d (wrap 64 (wrap 64 i + wrap 64 j) :: d_stack d).
+Definition B_out (j : Z) (d : data) : data := iter_from (B_in j) 0 3 d.
+
+Example ex_nested_do_loops :
+  compile 64 64 16 (bytes "2 0 do 3 0 do i j + loop loop"%string) = COk p_nested /\
+  ends p_nested (mkEnv []) 0 begun (Ok (finished [3; 2; 1; 2; 1; 0])) /\
+  api_run 100 true p_nested (mkEnv []) (init_machine p_nested) = Ok (St [] true 0 (d_of [3; 2; 1; 2; 1; 0]) [] []).
+Proof.
+  split; [vm_compute; reflexivity|]. split; [|vm_compute; reflexivity].
+  unfold begun, finished.
+  eapply goes_ends; [apply literal_spec with (num := 2); side|].
+  eapply goes_ends; [apply literal_spec with (num := 0); side|].
+  destruct (do_loop_iterates_proof p_nested (mkEnv []) 0 [0] true 0 0 4 [] [] 1 B_out
+              (fun j d => zlen (d_stack d) = 3 * j) 2 0 [] (d_of [0; 2])) as [Hg _]; try side.
+  - intros j [st vs ins os] Hj Hv. cbn [d_stack] in Hv.
+    destruct (do_loop_iterates_proof p_nested (mkEnv []) 0 [0] true 0 1 4 [(0, 5)] [(1, 2, j)] 2 (B_in j)
+                (fun i d => zlen (d_stack d) = 3 * j + i) 3 0 st (mkD (0 :: 3 :: st) vs ins os)) as [Hg' Hi']; try side.
+    + intros i di Hi Hv'. split.
+      * exists 3. split; [reflexivity|].
+        eapply goes_trans.
+        { apply (loop_index_spec_proof p_nested (mkEnv []) 0 [0] true 0 di 2 0 [(1, 5); (0, 5)] [(2, 3, i); (1, 2, j)]
+                   0%nat 2 3 i); side. }
+        eapply goes_trans.
+        { apply (loop_index_spec_proof p_nested (mkEnv []) 0 [0] true 0 _ 2 1 [(1, 5); (0, 5)] [(2, 3, i); (1, 2, j)]
+                   1%nat 1 2 j); side. }
+        eapply goes_trans; [apply binop_spec with (b := CODE_ADD) (f := fun a b => wrap 64 (a + b)); side|].
+        apply goes_refl.
+      * unfold B_in. cbn [d_stack with_stack]. rewrite zlen_cons. lia.
+    + split.
+      * exists 6. split; [reflexivity|].
+        eapply goes_trans; [apply literal_spec with (num := 3); side|].
+        eapply goes_trans; [apply literal_spec with (num := 0); side|].
+        exact Hg'.
+      * change (Z.max 0 3) with 3 in Hi'. unfold B_out. cbn [d_stack with_stack] in *.
+        change (Z.to_nat (3 - 0)) with 3%nat in Hi'. Show. lia.
+  - eapply goes_ends; [exact Hg|]. apply run_end; side.
 Qed.
